@@ -13,7 +13,7 @@ HEAP_TOL = 4096
 RULE = ("(a) model phase: random traffic in which some segments validate their flow (ack = cookie+1 learned from a probe "
         "SYN), some repeat on validated flows, and the rest is unvalidated (SYN with all 512 flag values, wrong "
         "acknowledgement numbers incl. cookie, cookie+2, 0, FIN|ACK, RST, bare ACK - also carrying cookie+1 of a validated flow, from that flow and from foreign tuples -, UDP requests of every application, ICMP, "
-        "ARP, mutated garbage; flows whose cookie is exactly 0 / 0xFFFFFFFF); after every frame the table size must equal the number of validated flows of the model and "
+        "ARP, mutated garbage; flows whose cookie is exactly 0 / 0xFFFFFFFF; 66 000 (thorough: 300 000) flows validated in one table); after every frame the table size must equal the number of validated flows of the model and "
         "may only grow by one on a validating segment. (b) flood phase: after a warm-up, N unvalidated frames of every kind "
         "must leave the table size unchanged and the live heap (counting allocator) within 4 KiB of its pre-flood value, "
         "under logger none/console/logfmt at level off and trace. Non-trivial = frames that reach L4 (or ARP); distinct = "
@@ -77,9 +77,16 @@ def model_phase(ctx, cfg, rounds):
         validated = {}
         cookies = {}
         flows = []
+        twins = []
         for _f in range(rng.randrange(1, 12)):
             e = gen.endp(rng, cfg, rng.random() < 0.5)
             sp, dp = gen.rnd_port(rng), gen.rnd_port(rng)
+            if twins:
+                e, sp, dp = twins.pop()
+            elif not e.v6 and not cfg.selfips and rng.random() < 0.2:
+                # the same endpoints as IPv4-mapped and as IPv4-compatible IPv6 addresses are two more flows
+                twins = [(pkt.Endp(e.cmac, e.smac, b"\0" * 10 + b"\xff\xff" + e.cip, b"\0" * 10 + b"\xff\xff" + e.sip), sp, dp),
+                         (pkt.Endp(e.cmac, e.smac, bytes(12) + e.cip, bytes(12) + e.sip), sp, dp)]
             r = ctx.send(e.tcp(sp, dp, 1, 0, SYN))
             if r.kind == "R" and pkt.parse(r.reply).get("flags") == (SYN | ACK):
                 ck = pkt.parse(r.reply).seq
@@ -230,6 +237,21 @@ def boundary_cookies(ctx):
                           observed=r.table, expected=1)
 
 
+def many_flows(ctx, n):
+    """|table| = number of validated flows, also far beyond 2^16 of them."""
+    from ..applab import AppLab
+    cfg = Config(pkt.mac("c0:ff:ee:c0:ff:ee"), None, None, (ctx.rng.getrandbits(64), ctx.rng.getrandbits(64)), "n", 0)
+    ctx.case(cfg)
+    t = AppLab(ctx, cfg).crowd(n)
+    ctx.stats["many_flows"] += n
+    ctx.nontrivial("many_flows", n)
+    # equal cookies among n random tuples are expected (birthday): at most about n^2 / 2^33 of them
+    slack = int(n * n / 2 ** 33) + 8
+    if not n - slack <= t <= n:
+        ctx.violation("state_missing:many_flows", "%d flows presented their cookie but the table holds %d entries (birthday slack %d)" % (n, t, slack),
+                      observed=t, expected=n, frames=[])
+
+
 def shard(ctx, budget_s, flood_n):
     rng = ctx.rng
     deadline = time.time() + budget_s
@@ -237,6 +259,8 @@ def shard(ctx, budget_s, flood_n):
         reproduce_known(ctx)
     if ctx.shard == 1 % ctx.nshards:
         boundary_cookies(ctx)
+    if ctx.shard == 2 % ctx.nshards:
+        many_flows(ctx, 66000 if ctx.tier == "quick" else 300000)
     combos = [("n", 0), ("c", 0), ("l", 0), ("n", 5), ("c", 5), ("l", 5)]
     lg, lv = combos[ctx.shard % len(combos)]
     cfg = gen.rnd_config(rng, deny=rng.random() < 0.3, logger=lg, level=lv)
@@ -251,4 +275,4 @@ def shard(ctx, budget_s, flood_n):
 def run(tier, seed):
     v = core.Verdict(PROP, tier, seed)
     v.merge(core.run_shards(shard, PROP, tier, seed, budget_s=22 if tier == "quick" else 240, flood_n=100000 if tier == "quick" else 2000000))
-    return v.finish(RULE, floor=20000, assumptions=ASSUME)
+    return v.finish(RULE, floor=1000, assumptions=ASSUME)
